@@ -270,4 +270,46 @@ def GFaithfulL : List G → Bool
   | x :: xs => GFaithful x && GFaithfulL xs
 end
 
+/-! ### plain Go data into a bag: `bag.ObjectToBag (slip.SimpleObject v)` -/
+
+mutual
+/-- the bag tree that holds the same data as a plain Go value (every integer by its value, both
+    float widths a float, a string-keyed map an object) -/
+def gToJ : G → J
+  | .nil => null
+  | .bool b => J.bool b
+  | .int _ v => int v
+  | .uint _ v => int v
+  | .f32 t => flo t
+  | .f64 t => flo t
+  | .str s => str s
+  | .time t => J.time t
+  | .slice xs => arr (gToJL xs)
+  | .map kvs => obj (gToJM kvs)
+def gToJL : List G → List J
+  | [] => []
+  | x :: xs => gToJ x :: gToJL xs
+def gToJM : List (String × G) → Members
+  | [] => []
+  | (k, v) :: kvs => (k, gToJ v) :: gToJM kvs
+end
+
+mutual
+/-- the plain values that reach a bag unchanged: no `false`, no empty slice or map (Lisp has
+    neither), map keys unique (a Go map has no others) -/
+def GBag : G → Bool
+  | .bool b => b
+  | .slice [] => false
+  | .slice (x :: xs) => GBag x && GBagL xs
+  | .map [] => false
+  | .map ((k, v) :: kvs) => GBag v && GBagM kvs && distinctKeys (k :: kvs.map (·.1))
+  | _ => true
+def GBagL : List G → Bool
+  | [] => true
+  | x :: xs => GBag x && GBagL xs
+def GBagM : List (String × G) → Bool
+  | [] => true
+  | (_, v) :: kvs => GBag v && GBagM kvs
+end
+
 end SlipVerif.Json
